@@ -20,6 +20,10 @@ ATTR_TEXT = {
     "tauri_command_after_other": "#[allow(unused)]\n#[tauri::command]\n",
     "tauri_command_before_other": "#[tauri::command]\n#[allow(unused)]\n#[inline]\n",
     "tauri_command_with_doc": "/// documented command\n#[doc = \"more docs\"]\n#[tauri::command]\n",
+    "tauri_command_after_qualified": "#[tracing::instrument]\n#[tauri::command]\n",
+    "command_after_qualified_args": "#[tracing::instrument(skip_all)]\n#[specta::specta]\n#[command]\n",
+    "tauri_command_between_qualified": "#[cfg(all())]\n#[a::b::c]\n#[tauri::command]\n#[more::stuff(x = 1)]\n",
+    "qualified_only": "#[tracing::instrument]\n#[specta::specta]\n",
     "none": "",
     "other_command": "#[other::command]\n",
     "tauri_other": "#[tauri::other]\n",
